@@ -1405,7 +1405,7 @@ func c39(r *vkit.Run) {
 		"RST/PING/GOAWAY/WINDOW_UPDATE/SETTINGS with every declared length 0..20 and wrong setting counts, data frames, unknown types/versions, random bytes. Oracle: no panic; never (frame, error) together or (nil, nil); " +
 		"after every SUCCESSFUL ReadFrame the reader stands at 8 + declared length (nothing is demanded after an error: the only caller drops the connection); in the single-goroutine phase TotalAlloc delta of one ReadFrame <= 4*(declared length*1032 + 64 KiB) " +
 		"(valid traffic from the real writer is measured too and its peak share of the limit is recorded). Announcements of 2^30..2^32-1 bytes run in a re-executed child under ulimit -v 2 GiB (phase 4). " +
-		"Non-trivial = sequence with >= 1 header-bearing frame, or hostile stream that is not purely random bytes; distinct = hash of the wire bytes + delivery mode.")
+		"Non-trivial = sequence with >= 1 header-bearing frame, or hostile stream that is not purely random bytes; distinct = hash of the wire bytes + delivery mode." + c39FURule)
 	r.Assume("zlib stream header (SPDY/3 dictionary id) learned from the first block bfe's own writer emits; crafted blocks use stored deflate blocks only, so no dictionary content is needed")
 	st := &c39Stats{}
 	zhdr, err := c39ZlibHeader()
@@ -1417,9 +1417,10 @@ func c39(r *vkit.Run) {
 
 	if r.Replay != "" {
 		var probe struct {
-			Frames json.RawMessage `json:"frames"`
-			Stream []byte          `json:"stream"`
-			Case   json.RawMessage `json:"case"`
+			Frames   json.RawMessage `json:"frames"`
+			Stream   []byte          `json:"stream"`
+			Case     json.RawMessage `json:"case"`
+			Followup json.RawMessage `json:"followup_items"`
 		}
 		if err := r.LoadReplay(&probe); err != nil {
 			r.Inconclusive(err.Error())
@@ -1427,6 +1428,14 @@ func c39(r *vkit.Run) {
 		}
 		r.SetMinDistinct(0)
 		r.Evals(1)
+		if probe.Followup != nil {
+			var w c39FU
+			r.LoadReplay(&w)
+			fs := newC39FUStats()
+			c39RunFU(r, fs, zhdr, &w)
+			c39FUFinish(r, fs)
+			return
+		}
 		if probe.Stream == nil && probe.Case != nil { // child witness wraps the case
 			var w struct {
 				Case c39Hostile `json:"case"`
@@ -1577,6 +1586,9 @@ func c39(r *vkit.Run) {
 		}
 	}
 	phase("children")
+	// ---- phase 6 (parallel): valid frames behind erroneous-but-well-framed ones (c39f.go)
+	c39FollowUp(r, zhdr)
+	phase("followup")
 	r.Count("roundtrip_sequences", st.rtSeq)
 	r.Count("roundtrip_frames_equal", st.rtFrames)
 	r.Count("roundtrip_header_frames_equal", st.rtHeaderFrames)
